@@ -3,8 +3,8 @@
    mechanism of /repo/writer.go as an atomic-step transition system); a run is
    [run (step cfg) init ls = Some s] for an arbitrary label sequence ls (every schedule, every
    timer firing, every broker reaction). *)
-From Coq Require Import List NArith ZArith Bool Arith.
-From KV Require Import Lib.LTS Model.Writer Proofs.WriterStmts Proofs.WriterC08 Proofs.WriterHolds Proofs.WriterC01a Proofs.WriterHolds2.
+From Coq Require Import List NArith ZArith Bool Arith Sorted.
+From KV Require Import Lib.LTS Model.Writer Proofs.WriterStmts Proofs.WriterC08 Proofs.WriterHolds Proofs.WriterC01a Proofs.WriterHolds2 Proofs.WriterTrickle.
 Import ListNotations.
 
 (* Every produce request the broker ever sees carries at most BatchSize messages, at most
@@ -121,6 +121,29 @@ Theorem C08_defaulted_config_ok :
 Proof. exact cfg_of_options_ok. Qed.
 Print Assumptions C08_defaulted_config_ok.
 
+(* BatchTimeout counts from the batch's OPENING.  In the transition system the awaitBatch goroutine
+   is spawned with the batch and its Timer step stays enabled whatever is added later
+   (C08_open_batch_has_timer).  Timed reading (batches_by_deadline of Model/Writer.v: a batch opens
+   with its first message at t0 and takes the following ones while they arrive before t0 + timeout
+   and there is room): every batch spans less than BatchTimeout from its FIRST message, however
+   densely later messages keep arriving, and respects BatchSize — so every produce request passes
+   span_ok, the check the trickle family (op trk) applies to the real Writer's requests with the
+   accept times of their messages.  (The effective BatchTimeout is positive: dflt.) *)
+Theorem C08_timeout_counts_from_opening :
+  forall fuel timeout bsize ts b, (0 < timeout)%Z -> 1 <= bsize -> StronglySorted Z.le ts ->
+    In b (batches_by_deadline fuel timeout bsize ts) ->
+    exists t0 rest, b = t0 :: rest /\ (forall t, In t b -> (t0 <= t < t0 + timeout)%Z) /\
+                    length b <= bsize /\ span_ok timeout 0 bsize b = true.
+Proof. exact C08_timeout_counts_from_opening_pos_proof. Qed.
+Print Assumptions C08_timeout_counts_from_opening.
+
+(* BatchTimeout 300, one message every 100 ms, 14 messages: requests of 3 (arrivals at
+   t0, t0+100, t0+200; the one at t0+300 is not before the deadline), never one of 14 *)
+Example C08_trickle_example :
+  map (@length Z) (batches_by_deadline 20 300 100 (map (fun i => Z.of_nat i * 100)%Z (seq 0 14)))
+  = [3; 3; 3; 3; 2].
+Proof. vm_compute. reflexivity. Qed.
+
 (* The deprecated constructor kafka.NewWriter(WriterConfig): the effective configuration is that
    of the mapped fields — the configured BatchBytes / BatchSize / MaxAttempts ARE the limits
    (zero = documented default).  op nwc compares the real constructor field by field. *)
@@ -132,6 +155,19 @@ Theorem C08_newwriter_config_carried : forall c wt retr,
   cfg_ok (cfg_of_writer_config c wt retr).
 Proof. exact cfg_of_writer_config_eq. Qed.
 Print Assumptions C08_newwriter_config_carried.
+
+(* ... and the Transport it builds takes SASL, TLS and ClientID from WriterConfig.Dialer
+   independently of each other (it authenticates exactly when the dialer has a SASL mechanism,
+   with or without TLS); op nwt compares the real constructor (hosted by C18's check). *)
+Theorem C08_newwriter_transport : forall d idle ttl,
+  t_sasl (transport_of_writer_config (Some d) idle ttl) = d_sasl d /\
+  t_tls (transport_of_writer_config (Some d) idle ttl) = d_tls d /\
+  t_clientID (transport_of_writer_config (Some d) idle ttl) = d_clientID d /\
+  t_dial (transport_of_writer_config (Some d) idle ttl) = true /\
+  (0 < t_idleMs (transport_of_writer_config (Some d) idle ttl) \/ idle < 0)%Z /\
+  (0 < t_ttlMs (transport_of_writer_config (Some d) idle ttl) \/ ttl < 0)%Z.
+Proof. exact transport_of_writer_config_sasl. Qed.
+Print Assumptions C08_newwriter_transport.
 
 Example C08_zero_means_default :
   let c := cfg_of_options (mkOpt 0 0 0 0 0 0 0 0)%Z false None (fun _ => false) in
